@@ -162,8 +162,17 @@ pub fn resolve_encoding<'encoding>(
                 }
             }
             
-            report.message(
-                diagn::Message::fuse_topmost(msgs));
+            if msgs.len() > 0
+            {
+                report.message(
+                    diagn::Message::fuse_topmost(msgs));
+            }
+            else
+            {
+                report.error_span(
+                    "failed to resolve instruction",
+                    instr_span);
+            }
         }
 
         return Ok(None);
